@@ -515,6 +515,16 @@ def run_impl_(case):
         plot.draw_correspondence_edges(ax, tr, tr2, mode) if len(case["pos2"]) == len(case["pos"]) else None
         plot.traj(ax, mode, tr, "-", "red", "b")
         d["traj_twice"] = [line_data(ln) for ln in ax.lines]
+        # the same Figure and subplot prepared twice, the second time for another mode / unit: the labels are those of the
+        # second request (whatever axes object is handed back)
+        other_mode = plot.PlotMode[{"xy": "zx", "xz": "yx", "yx": "xz", "yz": "xy", "zx": "yz", "zy": "xz", "xyz": "xyz"}[case["mode"]]]
+        other_unit = Unit["millimeters" if case["unit"] != "millimeters" else "meters"]
+        fig = plt.figure()
+        plot.prepare_axis(fig, mode, 111, unit)
+        ax2 = plot.prepare_axis(fig, other_mode, 111, other_unit)
+        fig3 = plt.figure()
+        ref_ax = plot.prepare_axis(fig3, other_mode, 111, other_unit)
+        d["prepared_twice"] = [axis_labels(ax2), axis_labels(ref_ax)]
         out["reuse"] = d
     if case.get("reuse", True):
         guarded("reuse", f_reuse)
@@ -1031,6 +1041,9 @@ def oracle(ctx, case, impl):
                 if x != tx[1:] or y != ru["speeds1"][1]:
                     ctx.fail(case, "speed-against-time", "speeds() repeated on the same trajectory: x is not the newer stamp / values changed", tags)
                     break
+        if "prepared_twice" in ru and ru["prepared_twice"][0] != ru["prepared_twice"][1]:
+            ctx.fail(case, "labels-name-plotted-axes", f"a subplot prepared a second time for another mode / unit carries the labels "
+                     f"{ru['prepared_twice'][0]} instead of {ru['prepared_twice'][1]}", tags)
         if ru["traj_twice"] != [want_line, want_line]:
             ctx.fail(case, "trajectory-line-at-own-coordinates", "the same trajectory drawn twice into one Axes: line data differ", tags)
     mo = impl.get("modify")
